@@ -137,8 +137,12 @@ def type_of(e):
     if tag == "unary":
         _, op, a = e
         ins, (dtype, shape) = type_of(a)
-        if op in ("exp", "log", "sqrt", "log1p", "tanh", "atanh", "sigmoid", "reciprocal"):
+        if op in ("exp", "log"):
             dtype = "real"
+        elif op in ("sqrt", "log1p", "tanh", "atanh", "sigmoid", "reciprocal") and dtype != "real":
+            raise IllTyped("transcendental unary op on bounded-integer data")
+        elif op == "neg" and dtype != "real":
+            raise IllTyped("negation of bounded-integer data")
         return ins, (dtype, shape)
     if tag == "binary":
         _, op, a, b = e
